@@ -75,7 +75,7 @@ func mustEval(exp string, names []string, args ...value.Value) value.Value {
 }
 
 var listReprs = []string{"eager", "lazy-map", "lazy-accept", "append", "concat"}
-var mapReprs = []string{"listmap", "real", "put", "merge", "replace", "eval", "map-method"}
+var mapReprs = []string{"listmap", "real", "put", "merge", "replace", "eval", "map-method", "funcmap", "funcmap-absent", "tomap"}
 
 func (t *Tree) Build() value.Value {
 	switch t.Kind {
@@ -153,6 +153,33 @@ func (t *Tree) Build() value.Value {
 			return mustEval("(a+b).eval()", []string{"a", "b"}, mk(0, n/2), mk(n/2, n))
 		case "map-method":
 			return mustEval("m.map((k,v)->v)", []string{"m"}, mk(0, n))
+		case "funcmap", "funcmap-absent":
+			// a function-backed map; "-absent" declares extra keys the function declines
+			table := map[string]value.Value{}
+			keys := append([]string{}, t.Keys...)
+			for i, k := range t.Keys {
+				table[k] = vals[i]
+			}
+			if t.Repr == "funcmap-absent" {
+				keys = append([]string{"\x00absent1"}, keys...)
+				keys = append(keys, "\x00absent2")
+			}
+			fac := value.NewFuncMapFactory(func(tb value.Map, key string) (value.Value, bool) {
+				v, ok := table[key]
+				return v, ok
+			}, keys...)
+			return fac.Create(value.EmptyMap)
+		case "tomap":
+			tm := value.NewToMap[int]()
+			for i, k := range t.Keys {
+				v := vals[i]
+				tm.Attr(k, func(int) value.Value { return v })
+			}
+			m, err := tm.Create(0)
+			if err != nil {
+				fatal("NewToMap: %v", err)
+			}
+			return m
 		}
 		return mk(0, n)
 	}
